@@ -55,6 +55,9 @@ def _to_copy(op, t, dtype=None, device=None, **kwargs):
     if type(t) != QBitsTensor and t.device.type != device.type:
         # Before moving to another device type, convert back to a QBitsTensor
         t = t.qbits_tensor()
+    # The packed data and the grouped scales have their own 2D layout: a memory format requested for the
+    # (possibly 4D) quantized tensor does not apply to them
+    kwargs.pop("memory_format", None)
     scale = op(t._scale, dtype=dtype, device=device, **kwargs)
     data = op(t._data, device=device, **kwargs)
     zeropoint = op(t._zeropoint, device=device, **kwargs)
